@@ -258,6 +258,62 @@ func C17(tier common.Tier) int {
 		}
 	})
 
+	// (2b) the same on the covering program WITH real markers in it (a category before a function, a file-level list,
+	// @ignore ALL before another function, exact codes on single lines): the appended marker then sits inside other
+	// markers' scopes and next to markers of the same code. In-process; reference = that program's own run.
+	{
+		marked := e1.IgRealMarked(base)
+		mres, err := prog.Run(marked.Program(), prog.Opts{})
+		if err != nil || mres.Panic != "" {
+			common.Fatalf("marked covering program: %v %s", err, mres.Panic)
+		}
+		var mdiags []baseDiag
+		for _, d := range mres.Diags {
+			for i, f := range marked.Files {
+				if f.Pkg+"/"+f.Name == d.File {
+					mdiags = append(mdiags, baseDiag{i, d.Line, d.Code})
+				}
+			}
+		}
+		seenM := map[string]bool{}
+		for _, d := range mdiags {
+			k := fmt.Sprintf("%d:%d:%s", d.file, d.line, d.code)
+			if seenM[k] {
+				continue
+			}
+			seenM[k] = true
+			if d.code == "TONL01" || d.code == "PKGO01" {
+				continue // where a once-per-file report moves to depends on the markers already in the program; (2) judges these codes
+			}
+			v, nb, ok := e1.MakeVariant(marked, d.file, d.line, e1.PlTrail, "// @ignore "+d.code)
+			if !ok {
+				continue
+			}
+			res, err := prog.Run(nb.Program(), prog.Opts{})
+			if err != nil {
+				common.Fatalf("%v", err)
+			}
+			var gk []string
+			for _, g := range res.Diags {
+				for fi, f := range nb.Files {
+					if f.Pkg+"/"+f.Name == g.File {
+						gk = append(gk, fmt.Sprintf("%s:%d:%s", nb.Files[fi].Name+"@"+nb.Files[fi].Pkg, g.Line, g.Code))
+					}
+				}
+			}
+			sort.Strings(gk)
+			want := expectedIg(marked, mdiags, v, []string{d.code})
+			run.State(1, strings.Join(gk, "|"), fmt.Sprintf("ignore-own-code-marked|%d|%d|%s", d.file, d.line, d.code))
+			if strings.Join(gk, "|") != strings.Join(want, "|") || res.Panic != "" {
+				missing, extra := diffKeys(want, gk)
+				run.Report(common.Cex{Sig: fmt.Sprintf("own-code-ignore-among-markers|code=%s|nmissing=%d|nextra=%d", d.code, len(missing), len(extra)),
+					Summary: fmt.Sprintf("program with real @ignore markers: appending `// @ignore %s` to %s:%d does not remove exactly that diagnostic: vanished although they should stay %v; still reported although they should vanish %v %s",
+						d.code, marked.Files[d.file].Name, d.line, missing, extra, res.Panic),
+					Detail: map[string]any{"want": want, "got": gk, "program": nb.Program().Text()}})
+			}
+		}
+	}
+
 	// (2b) every diagnostic line of every file suppressed at once (`// @ignore ALL` appended to each): the packages then
 	// hold markers in several files; in-process under both parse orders of the loader, and on the real binary (whose
 	// loader parses files concurrently) three times. Only the once-per-file reports may move to their next use.
